@@ -61,6 +61,9 @@ func (a *ringAcc) loc(addr uintptr) int64 {
 	case uintptr(unsafe.Pointer(a.tail)):
 		return 1
 	}
+	if addr == 0 {
+		return 0
+	}
 	for i := 0; i < a.n; i++ {
 		if addr == uintptr(unsafe.Pointer(a.pos(i))) {
 			return 2 + int64(i)
@@ -113,6 +116,11 @@ func c01ImplM(in, model []int64) []int64 {
 					results[i] = append(results[i], 3, B(a.r.IsEmpty()))
 				case op == -3:
 					results[i] = append(results[i], 3, B(a.r.IsFull()))
+				case op == -10:
+					v, ok := a.r.PopWait(-1)
+					results[i] = append(results[i], 2, B(ok), v)
+				case op >= 1000000:
+					results[i] = append(results[i], 1, B(a.r.PushWait(op-1000000, -1)))
 				default:
 					results[i] = append(results[i], 1, B(a.r.Push(op)))
 				}
@@ -159,7 +167,7 @@ func c01ImplM(in, model []int64) []int64 {
 			if emitNew() {
 				break
 			}
-			if w.Pos == sched.PosB {
+			if w.Pos == sched.PosB || w.Pos == sched.PosPre {
 				out = append(out, int64(tid), 0)
 			} else {
 				out = append(out, int64(tid), 0, 77, int64(w.Pos))
@@ -323,6 +331,28 @@ func c01Gen(c *Ctx) {
 				total++
 			}
 		}
+		fam := fmt.Sprintf("random-%dthreads", nt)
+		if i%5 == 0 {
+			// PushWait(v,-1) / PopWait(-1) family: as many blocking pushes as blocking pops (so every call can return), plus observers
+			fam = "wait-loops"
+			for j := range progs {
+				progs[j] = nil
+			}
+			total = 0
+			// one blocking call per goroutine (they must be able to run concurrently), as many pushes as pops
+			perm := r.Perm(nt)
+			for x := 0; x+1 < nt; x += 2 {
+				a, b := perm[x], perm[x+1]
+				progs[a] = append(progs[a], 1000000+int64(100*(a+1)+1))
+				progs[b] = append(progs[b], -10)
+				total += 2
+			}
+			if nt%2 == 1 {
+				o := perm[nt-1]
+				progs[o] = append(progs[o], -1-int64(r.Intn(3)), -1-int64(r.Intn(3)))
+				total += 2
+			}
+		}
 		var s []int64
 		// bursty schedule: runs of the same thread of random length
 		for len(s) < total*7 {
@@ -332,7 +362,7 @@ func c01Gen(c *Ctx) {
 			}
 		}
 		t.C.Count("threads", fmt.Sprint(nt))
-		t.Try(fmt.Sprintf("random-%dthreads", nt), c01Case(k, base, fill, progs, s), true)
+		t.Try(fam, c01Case(k, base, fill, progs, s), true)
 	})
 }
 
